@@ -19,19 +19,58 @@ def compare(xmls, profile="debug"):
     impl = core.ensure_harness(profile)
     outs = core.run_cases(impl, ["XEXTRACT " + x.hex() for x in xmls])
     mlines, parts = [], []
-    for o in outs:
+    for x, o in zip(xmls, outs):
         p = o.split(" ;; ")
         if len(p) != 3:
             parts.append((o, None, None)); mlines.append("ECHO bad")
             continue
         parts.append(tuple(p))
-        mlines.append("XEXTRACTM " + p[1] + " ;; " + p[2])
+        # the XML bytes go to the model too: it applies the nesting-depth check of E57Reader::new (Model/XmlDepth.v)
+        mlines.append("XEXTRACTM X=" + x.hex() + " " + p[1] + " ;; " + p[2])
     mouts = core.run_cases(core.DRIVER, mlines)
     res = []
     for (r, orc, tree), m in zip(parts, mouts):
         tc = "tree" if tree and tree.startswith("D ") else (tree or "crash")
         res.append((r, m, tc))
     return res
+
+
+def depth_docs():
+    """documents around the nesting limit of E57Reader::new (256 elements): exactly at, above, far above; depth hidden in
+    CDATA / comments / processing instructions / quoted attribute values (must not count); unbalanced and unterminated tags"""
+    NS = "http://www.astm.org/COMMIT/E57/2010-e57-v1.0"
+    def doc(inner):
+        return ('<?xml version="1.0" encoding="UTF-8"?>\n<e57Root type="Structure" xmlns="%s"><formatName type="String">F</formatName>'
+                '<guid type="String">g</guid><versionMajor type="Integer">1</versionMajor>%s</e57Root>' % (NS, inner)).encode()
+    def nest(k, leaf=""):
+        return "".join("<n%d>" % i for i in range(k)) + leaf + "".join("</n%d>" % i for i in reversed(range(k)))
+    def opens(k):
+        return "".join("<n%d>" % i for i in range(k))
+    out = []
+    for k in (1, 100, 254, 255, 256, 257, 300, 1000, 20000):
+        out.append((doc(nest(k)), ["depth:%d" % (k + 1)]))
+    deep = nest(400)
+    out += [(doc("<x><![CDATA[%s]]></x>" % deep), ["depth:hidden-in-cdata"]),
+            (doc("<x a='%s' b=\"%s\"/>" % (deep, deep)), ["depth:hidden-in-attribute-values"]),
+            (doc("<x a='%s'/>" % deep.replace("<", "&lt;")), ["depth:escaped-in-attribute-value"]),
+            (doc("<!--%s-->" % deep), ["depth:hidden-in-comment"]),
+            (doc("<?pi %s?>" % deep), ["depth:hidden-in-pi"]),
+            (doc(nest(255, "<![CDATA[<a><b>]]>")), ["depth:256+cdata"]),
+            (doc(nest(254, "<a/>" * 1000)), ["depth:256-self-closing-siblings"]),
+            (doc(nest(254, "<a></a>" * 1000)), ["depth:256-empty-siblings"]),
+            (doc(nest(255, "<a></a>")), ["depth:257-empty-leaf"]),
+            (doc(nest(255, "<a/>")), ["depth:256-self-closing-leaf"]),
+            (doc(nest(255, "<a b='>'/>")), ["depth:gt-in-quotes"]),
+            (doc(nest(254, "<a b='/'>x</a>")), ["depth:256-slash-before-quote"]),
+            (doc(nest(255, "<a b='/'>x</a>")), ["depth:257-slash-before-quote"]),
+            (doc(nest(255, "<a b='x'/ >")), ["depth:malformed-self-close"]),
+            (doc(opens(255) + "</x>" * 5 + opens(5)), ["depth:unbalanced-closes-256"]),
+            (doc(opens(255) + "</x>" * 5 + opens(6)), ["depth:unbalanced-closes-257"]),
+            (doc(opens(254) + "<unterminated a='"), ["depth:unterminated-256"]),
+            (doc(opens(255) + "<unterminated a='"), ["depth:unterminated-257"]),
+            (doc("</a>" * 300 + nest(255)), ["depth:saturating-closes-first"]),
+            (("<!DOCTYPE x [" + "<!ELEMENT a (b)>" * 300 + "]>").encode() + doc(nest(10)), ["depth:doctype-declarations"])]
+    return out
 
 
 def corpus_docs():
@@ -111,7 +150,7 @@ def differential(rng, n, tier="quick", profile="debug", batch=4000):
     """generates n documents, compares implementation and model.
     returns dict(cases, disagreements=[(xml, impl, model, mutations)], classes, mutations, trees)"""
     stats = dict(cases=0, disagreements=[], classes={}, mutations={}, trees={}, distinct=set())
-    docs = corpus_docs()
+    docs = corpus_docs() + depth_docs()
     done = 0
     while done < n or docs:
         while len(docs) < batch and done + len(docs) < n:
@@ -214,6 +253,18 @@ def mutate_xml_text(rng, xml):
     # byte damage
     i = rng.below(max(1, len(xml)))
     return xml[:i] + bytes([rng.choice([0xff, 0x3c, 0x26, 0x00, 0x80])]) + xml[i + 1:]
+
+
+def differential_depth_files(profile="debug"):
+    """the depth documents as complete files: E57Reader::new vs Model/ReaderFull.reader_new (RNEW / RNEWM)"""
+    from vlib import crc
+    files = []
+    for xml, _ in depth_docs():
+        log = bytearray(b"ASTM-E57") + (1).to_bytes(4, "little") + (0).to_bytes(4, "little") + bytes(8) + (48).to_bytes(8, "little") + len(xml).to_bytes(8, "little") + (1024).to_bytes(8, "little") + xml
+        npages = (len(log) + 1019) // 1020
+        log[16:24] = (npages * 1024).to_bytes(8, "little")
+        files.append(crc.paginate(bytes(log)))
+    return differential_files(None, files, profile)
 
 
 def run(rep, tier, rng, replay=None):
